@@ -115,9 +115,13 @@ def _all_specs(path):
 def with_neighbours(specs):
     """The listed specs plus everything else defined in the same files (changes next to a modelled
     function - a helper, a module constant - also raise the sampling budget)."""
-    files = sorted(set(s.split(':')[0] for s in specs))
+    # every module of the package: a modelled function may call into any of them (Coordinates -> Angle, ...)
+    pk = os.path.join(REPO, 'pymeeus')
+    files = set(s.split(':')[0] for s in specs)
+    if os.path.isdir(pk):
+        files |= set('pymeeus/' + fn for fn in os.listdir(pk) if fn.endswith('.py'))
     extra = []
-    for f in files:
+    for f in sorted(files):
         extra += _all_specs(f)
     return sorted(set(specs) | set(extra))
 
@@ -127,7 +131,11 @@ def compare(specs):
     listed = set(specs)
     specs = [s for s in with_neighbours(specs) if s in listed or s in gold]
     # a definition that is new in the file has no golden entry: treat as changed neighbour
-    for f in sorted(set(s.split(':')[0] for s in listed)):
+    allfiles = set(s.split(':')[0] for s in listed)
+    pk = os.path.join(REPO, 'pymeeus')
+    if os.path.isdir(pk):
+        allfiles |= set('pymeeus/' + fn for fn in os.listdir(pk) if fn.endswith('.py'))
+    for f in sorted(allfiles):
         for s2 in _all_specs(f):
             if s2 not in gold and s2 not in specs:
                 specs.append(s2)
